@@ -441,6 +441,12 @@ pub fn perturbations(s: &S) -> Vec<S> {
         if let S::App(f, _) = s {
             out.push((**f).clone());
         }
+        // implicitness is part of a function's type: toggle it
+        match s {
+            S::Lam { name, implicit, ann, body } => out.push(S::Lam { name: name.clone(), implicit: !*implicit, ann: ann.clone(), body: body.clone() }),
+            S::Pi { name: Some(n), implicit, dom, cod } => out.push(S::Pi { name: Some(n.clone()), implicit: !*implicit, dom: dom.clone(), cod: cod.clone() }),
+            _ => {}
+        }
         // or rewrite inside one child
         let mut with = |make: &dyn Fn(S) -> S, child: &S| {
             for c in go(child) {
